@@ -331,6 +331,16 @@ func c07(args []string) {
 	c07Stream(w, stream, slog.LevelDebug, "stream")
 	c07Stream(w, stream, slog.LevelInfo, "stream")
 
+	// resource use: a very long run of other data without a single start byte (an NMEA-only port, a text body) is framed
+	// in time proportional to its length - 30 s is more than ten times what it takes on a loaded machine
+	{
+		n := 2000000
+		if thorough {
+			n = 4000000
+		}
+		long := gen.Junk(rng, n, 1)
+		c07StreamWithin(w, gen.Cat(gen.Frame(rng, 1005, 19, 0), long, gen.Frame(rng, 1230, 6, 0)), slog.LevelInfo, "long run without a start byte", 30*time.Second, false)
+	}
 	// streams that END inside a frame, at every byte (the tail is displayed as other data), and every short
 	// piece that looks like the beginning of a frame - at both log levels
 	for k, f := range [][]byte{gen.Frame(rng, 1005, 19, 0), gen.Frame(rng, 1077, 40, 0), gen.Frame(rng, 1230, 4, 0), gen.Frame(rng, 1006, 21, 2)} {
@@ -371,6 +381,10 @@ func c07(args []string) {
 
 // c07Stream: one stream through HandleMessages at the given log level, every message displayed
 func c07Stream(w *tr.Writer, stream []byte, lv slog.Level, fam string) {
+	c07StreamWithin(w, stream, lv, fam, 120*time.Second, true)
+}
+
+func c07StreamWithin(w *tr.Writer, stream []byte, lv slog.Level, fam string, within time.Duration, display bool) {
 	ev := c07Event{Fam: fam, Len: len(stream), Stage: "HandleMessages", Fill: "mixed", TsKind: "any"}
 	res := make(chan string, 1)
 	go func() {
@@ -392,7 +406,9 @@ func c07Stream(w *tr.Writer, stream []byte, lv slog.Level, fam string) {
 					if !ok {
 						return
 					}
-					_ = m.String()
+					if display {
+						_ = m.String()
+					}
 				case p := <-hp:
 					if p != "" {
 						panic(p)
@@ -405,7 +421,7 @@ func c07Stream(w *tr.Writer, stream []byte, lv slog.Level, fam string) {
 	select {
 	case p := <-res:
 		ev.Panic = p
-	case <-time.After(120 * time.Second):
+	case <-time.After(within):
 		ev.Timeout = true
 	}
 	w.Emit(ev)
